@@ -82,12 +82,30 @@ class AwesomeyamlLoader(yaml.Loader):
 
         aynode = self._convert(value, node)
 
+        if is_container and value is not aynode:
+            converted = self.__dict__.setdefault('_converted_nodes', {})
+            if id(node) in converted:
+                # constructed again (an alias): the new container holds the very nodes which sit in the one created for the anchor
+                self.__dict__.setdefault('_alias_containers', []).append(aynode)
+            converted[id(node)] = node
+
         if is_container and value is not aynode and id(value) in unfilled:
             # created from a value which is still empty: fill the config node once pyyaml has filled the value
             update_fn = aynode.extend if isinstance(node, yaml.SequenceNode) else aynode.update
             self.state_generators.append(self._make_generator(value, update_fn, unfilled))
 
         return aynode
+
+
+    def construct_document(self, node):
+        data = super().construct_document(node)
+        # everything is filled now: give the containers created for aliases their own copies of the children, so that the places
+        # which refer to one yaml node share nothing below them (merging into one of them must not change the others)
+        for aynode in self.__dict__.pop('_alias_containers', []):
+            for name, child in list(aynode.ayns.named_children()):
+                aynode[name] = copy.deepcopy(child)
+        self.__dict__.pop('_converted_nodes', None)
+        return data
 
 
 class AwesomeyamlDumper(yaml.Dumper):
